@@ -3,10 +3,16 @@ Driver for C14: reads cases of op lines produced by the Go harness (which ran th
 Bolt file with a real TaskMaster), replays every case on the model and on the catalogue spec, and judges
   * the spec on the OBSERVED answers and listings (accepted ⇒ declared effect, rejected ⇒ no effect, executing ⇔
     enabled ∧ started, restart restarts every enabled task, template update all-or-none), and
-  * observed = model (answer class, number of storage transactions, listings, TaskMaster's executing set).
+  * observed = model (answer class, number of storage transactions, listings, TaskMaster's executing set);
+  * paged / filtered listings (`page tasks|tmpls pat= off= lim= f=`): the spec clause page-is-slice-of-catalogue on the
+    OBSERVED page (IDs in order, and the rows when the request asked for them) against `Cat.taskPage` / `Cat.tmplPage`
+    of the catalogue adopted at the listing just before (after a recorded deviation whose catalogue only the model
+    knows: page-is-slice-of-listing against the unpaged listing the API showed at the same moment); the tie against
+    `listTasks` / `listTmpls` (the transcription of DoListFunc); and the glob fragment against the real path.Match.
 -/
 import Kap.Basic
 import Kap.Spec.C14
+import Kap.Spec.C14List
 import Kap.Model.C14Fault
 open Kap Kap.C14
 
@@ -139,6 +145,10 @@ structure St where
   snapsAtReq : Snaps := []               -- the stored snapshots the tasks started by the last request were restored from
   snapsSpec : Option Snaps := none       -- what the spec expects when an interrupted request's prefix leaves something else
   reqsSinceList : Nat := 0               -- requests since the previous listing
+  lastRows : List Row := []              -- the previous (unpaged) listing
+  lastTmpls : List (String × String) := []
+  listed : Bool := false                 -- a listing was shown in this case
+  pages : Nat := 0
 
 def St.mm (st : St) (d : String) : St := if st.mismatch.isSome then st else { st with mismatch := some d }
 def St.kn (st : St) (k d : String) : St := if st.known.isSome then st else { st with known := some (k, d) }
@@ -233,7 +243,8 @@ def judge (_id : String) (lines : Array String) : Verdict := Id.run do
               let restored := match sn.find? (fun x => x.1 == i) with | some x => x.2.2 | none => "-"
               if restored != (st.snapsAtReq.get i).getD "-" && specfail.isNone then
                 specfail := some ("snapshot-restored-at-start", s!"task {i} restored with {restored}, stored {(st.snapsAtReq.get i).getD "-"}")
-      st := { st with pend := none, before := rowsFn rows, prevExec := exec, allStarted := false, reqsSinceList := 0, snapsSpec := none }
+      st := { st with pend := none, before := rowsFn rows, prevExec := exec, allStarted := false, reqsSinceList := 0, snapsSpec := none,
+                      lastRows := rows, lastTmpls := tm, listed := true }
       -- the stored Type is the type of the stored script (model header: derived, not stored)
       if !typesOk env (rowTypes (look m "tasks") 1 5) then st := st.mm s!"task type differs from the type of its script: {look m "tasks"}"
       if !typesOk env (rowTypes (look m "tmpls") 1 2) then st := st.mm s!"template type differs from the type of its script: {look m "tmpls"}"
@@ -241,6 +252,61 @@ def judge (_id : String) (lines : Array String) : Verdict := Id.run do
       if rows != modelRows st.w then st := st.mm s!"list: model {renderRows (modelRows st.w)} observed {renderRows rows}"
       if tm != modelTmpls st.w then st := st.mm s!"templates: model {renderTmpls (modelTmpls st.w)} observed {renderTmpls tm}"
       if !(st.ids.all fun i => exec.contains i == st.w.exec i) then st := st.mm s!"executing: observed {exec}"
+    | "page" :: kind :: rest =>
+      -- a paged / filtered listing request
+      let m := kvs rest
+      let some pat := (if look m "pat" == "-" then some "" else unesc (look m "pat")) | return .badop l
+      let off := (look m "off").toNat?.getD 0
+      let lim := (look m "lim").toNat?.getD defaultLimit
+      if obs.head? == some "panic" then return .specfail "no-panic" l
+      let what := " ".intercalate opT
+      if obs.head? != some "ok" then
+        specfail := some ("page-is-slice-of-catalogue", s!"{what}: answered {obs.headD "nothing"}")
+      else
+        let mo := kvs obs
+        let ids := listTok (look mo "ids")
+        -- the glob fragment of the model against the real path.Match (oracle cross-check)
+        if !((listTok (look mo "pm")).all (matchFn pat)) || (listTok (look mo "pn")).any (matchFn pat) then
+          st := st.mm s!"glob fragment differs from path.Match: {l}"
+        let byCat := !st.tainted && st.pend.isNone
+        let byListing := st.listed && st.reqsSinceList == 0
+        if kind == "tasks" then
+          let rowsO : Option (List Row) := if look mo "rows" == "na" then none else parseRows (look mo "rows")
+          if look mo "rows" != "na" && rowsO.isNone then return .badop l
+          let differs := fun (exp : List Row) => ids != exp.map (·.1) || (match rowsO with | some r => r != exp | none => false)
+          let shown := match rowsO with | some r => renderRows r | none => ",".intercalate ids
+          -- 1. the property on the observed page
+          if byCat then
+            let exp := st.c.taskPage st.ids pat off lim
+            if differs exp then
+              specfail := some ("page-is-slice-of-catalogue", s!"{what}: expected {renderRows exp} shown {shown}")
+          else if byListing then
+            let exp := sliceOf st.lastRows (·.1) pat off lim
+            if differs exp then
+              specfail := some ("page-is-slice-of-listing", s!"{what}: expected {renderRows exp} shown {shown}")
+          -- 2. the tie
+          if differs (listTasks st.w pat off lim) then
+            st := st.mm s!"{what}: model {renderRows (listTasks st.w pat off lim)} observed {shown}"
+          st := { st with w := (pageBranches st.w.store.taskIndex pat off lim).foldl World.note st.w, pages := st.pages + 1 }
+        else if kind == "tmpls" then
+          let rowsO : Option (List (String × String)) := if look mo "rows" == "na" then none else parseTmplRows (look mo "rows")
+          if look mo "rows" != "na" && rowsO.isNone then return .badop l
+          let differs := fun (exp : List (String × String)) =>
+            ids != exp.map (·.1) || (match rowsO with | some r => r != exp | none => false)
+          let shown := match rowsO with | some r => renderTmpls r | none => ",".intercalate ids
+          if byCat then
+            let exp := st.c.tmplPage st.mids pat off lim
+            if differs exp then
+              specfail := some ("page-is-slice-of-catalogue", s!"{what}: expected {renderTmpls exp} shown {shown}")
+          else if byListing then
+            let exp := sliceOf st.lastTmpls (·.1) pat off lim
+            if differs exp then
+              specfail := some ("page-is-slice-of-listing", s!"{what}: expected {renderTmpls exp} shown {shown}")
+          if differs (listTmpls st.w pat off lim) then
+            st := st.mm s!"{what}: model {renderTmpls (listTmpls st.w pat off lim)} observed {shown}"
+          st := { st with w := ((pageBranches st.w.store.tmplIndex pat off lim).map (· ++ "-tmpl")).foldl World.note st.w,
+                          pages := st.pages + 1 }
+        else return .badop l
     | ["snap", id, payload] =>
       if obs.head? != some "ok" then return .badop l
       st := { st with snaps := snapSave st.snaps id payload, ids := insId id st.ids }
